@@ -14,11 +14,17 @@ structure SpecOut where
   domain : String            -- must mustRefuse mayRefuse unspecified
   outs : Option (List (Option DT)) := none
   pure : Bool := true        -- inputs must not be modified
+  /-- a value the result must NOT be (e.g. what the operator computes when an attribute that changes the
+  result is silently ignored) -/
+  notOuts : Option (List (Option DT)) := none
 
 def SpecOut.json (s : SpecOut) : Json :=
   let b : List (String × Json) := [("domain", s.domain), ("pure", s.pure)]
   let b := match s.outs with
     | some o => b ++ [("outs", Json.arr (o.map optTensorJson).toArray)]
+    | none => b
+  let b := match s.notOuts with
+    | some o => b ++ [("not_outs", Json.arr (o.map optTensorJson).toArray)]
     | none => b
   Json.mkObj b
 
